@@ -1,6 +1,10 @@
 """C02 - all views of the learned metric agree with M = L^T L."""
-from .c01 import check_views
+from .c01 import check_views, QUERY_VIEWS
 
 
 def check(repo, rep, tier):
   check_views(repo, rep, 'C02')
+  # "integer-dtype query arrays" are in the quantifier: the views agree only
+  # if none of them computes x - x' in the integer dtype of the query
+  from . import c06
+  c06.rule_int_arith(repo, rep, methods=QUERY_VIEWS)
